@@ -110,6 +110,42 @@ CLAIMS = {
                   "pairing/ordering rules on the AST, path counting of the step counter, sibling "
                   "comparison of the two calculation modes",
         design="3/C08"),
+    "C16": dict(
+        text="Static decision of the structural clauses of C16: one (member, bath) iteration of both "
+             "right-hand sides is interpreted with the index algebra (link tables as opaque index "
+             "maps): every term maps Hermitian auxiliary operators to Hermitian ones given Hermitian "
+             "H and V_k, carries the step exactly once, and the terms that survive for the root "
+             "member (those without the order n_k) are commutators, so the reduced operator's "
+             "equation is trace-free given Gamma[0]=0, which follows from Gamma[n]=sum_k n_k gamma_k "
+             "(TA on _make_Gamma) and the root multi-index being the zero vector generated first; "
+             "propagate() is the order-L Taylor scheme over the sum of both right-hand sides with "
+             "dt/ll and stores member 0; the -1 sentinel written for missing links is excluded by the "
+             "guards for every sign class of (n_k, link) or multiplied by n_k = 0; the auxiliary "
+             "operators are fully reset before their first use in a run (the repaired C15 defect). "
+             "Not decided: completeness/uniqueness of the index set and mutual inverseness of the "
+             "link tables for arbitrary depth (combinatorial), zero-coupling and depth limits "
+             "(numerical).",
+        note=BASE_NOTE + "Vs, H Hermitian; lam, gamma, kBT real; index set complete (a missing lower "
+             "link only with n_k = 0).",
+        technique="index-algebra interpretation of the right-hand-side loop bodies, Taylor-loop "
+                  "recogniser with the right-hand sides as opaque linear maps, finite evaluation of "
+                  "comparison-only guards, reset-before-use ordering rule",
+        design="3/C16"),
+    "C17": dict(
+        text="Static decision of the structural clauses of C17: RateMatrix.set_rate, interpreted with "
+             "the index algebra, leaves every column sum unchanged, touches only column M, keeps the "
+             "other rates and makes K[N,M] the given value (identities for all N != M, all matrices), "
+             "refuses the diagonal before any store, and an empty matrix starts as zeros - so any "
+             "sequence of assignments keeps zero column sums; _propagate_short_exp is the Taylor "
+             "scheme around p -> (dt/ll) K p and sum(p) is conserved by one step exactly when the "
+             "columns of K sum to zero; get_PropagationMatrix is guarded by is_subset_of, starts from "
+             "the identity, steps with S diag(exp(lambda*step)) S^-1 on the sub-axis step (TA on the "
+             "expression), recurs U_i = E U_{i-1} from 1, bridges a shifted start exactly once; the "
+             "initial populations are not mutated. Not decided: non-negativity and distance to expm.",
+        note=BASE_NOTE + "numpy.linalg.eig/inv semantics.",
+        technique="index-algebra interpretation of set_rate and of one expansion step, TA evaluation "
+                  "of the spectral-exponential expressions, ordering/pairing rules, alias rule",
+        design="3/C17"),
 }
 
 NOT_YET = "check not built yet in this round (see DESIGN.md section 3 for the planned rules)"
